@@ -62,7 +62,7 @@ type c06Exec struct {
 // c06Execute runs the history once. failAt >= 0 injects a fault of the given kind at that
 // position of the LAST Commit.
 func c06Execute(in *cacheIn, env *Env, failAt int, kind string) (ex c06Exec) {
-	res := env.Sim(SimOpts{MaxSteps: 60000, FairSteps: 20000}, func() {
+	res := env.Sim(SimOpts{MaxSteps: 250000, FairSteps: 50000}, func() {
 		base, err := memfs.NewFilespace()
 		if err != nil {
 			panic(harnessTrouble{err.Error()})
